@@ -485,6 +485,12 @@ void dataset_t::check(tensor_size_t feature) const
 
 void dataset_t::check(indices_cmap_t samples) const
 {
+    if (samples.size() == 0)
+    {
+        // NB: an empty list of samples is valid (and has no minimum or maximum).
+        return;
+    }
+
     critical(samples.min() < 0 || samples.max() >= m_datasource.samples(),
              "dataset: invalid sample range, expecting in [0, ", m_datasource.samples(), "), got ", "[", samples.min(),
              ", ", samples.max(), ")!");
